@@ -558,7 +558,7 @@ pub fn run(ctx: &Ctx) -> Report {
         "rows: every Value variant × boundary values (f64 classes incl. ±0, subnormals, ±inf, NaNs with sign/payload; \
          i64 edges; byte lengths 0..4096 and around 65536; column counts 0,1,16,17,255..257,65535,65536), random rows, \
          buffers of 1..8 concatenated rows, arbitrary byte strings (all truncations and byte mutations of valid rows, \
-         random discriminants/lengths), PartitionSpiller and SpillableBuffer histories with budgets that force spilling. \
+         random discriminants/lengths), PartitionSpiller (every second history read executor-style, partition after partition without end_read) and SpillableBuffer histories with budgets that force spilling. \
          non-trivial = distinct case that is a non-empty row/buffer (row cases), or a byte string whose decoding gets \
          past the column count (bytes cases)",
     );
@@ -954,7 +954,9 @@ fn run_spill(rep: &mut Report, ctx: &Ctx, var: &str, cases: &[(usize, usize, Vec
                         Err(e) => return Err(format!("read_next: {e}")),
                     }
                 }
-                sp.end_read();
+                // the production caller (GraceHashJoin) goes from partition to partition WITHOUT end_read():
+                // every second history reads that way
+                if ci % 2 == 0 { sp.end_read(); }
                 out.push((spilled, got));
             }
             Ok(out)
